@@ -85,7 +85,7 @@ func runCase(c Case) caseResult {
 		if c.Sc.Check != nil {
 			m1, m2 = c.Sc.Check(r1), c.Sc.Check(r2)
 		}
-		if r1.TraceHash() != r2.TraceHash() || m1 != m2 || firstLine(m1) != firstLine(v.Msg) {
+		if r1.TraceHash() != r2.TraceHash() || m1 != m2 || !containsSig(m1, firstLine(v.Msg)) {
 			cr.Infra = fmt.Sprintf("scenario %s: violation %q did not replay deterministically (%q / %q)", c.Sc.Name, firstLine(v.Msg), firstLine(m1), firstLine(m2))
 			continue
 		}
@@ -99,6 +99,20 @@ func runCase(c Case) caseResult {
 	}
 	cr.Wall = time.Since(t0).Seconds()
 	return cr
+}
+
+// containsSig reports whether check output m (possibly a MULTI message) has a
+// violation whose signature is sig.
+func containsSig(m, sig string) bool {
+	if strings.HasPrefix(m, "MULTI\n") {
+		for _, p := range strings.Split(m[len("MULTI\n"):], "\n@@\n") {
+			if firstLine(p) == sig {
+				return true
+			}
+		}
+		return false
+	}
+	return firstLine(m) == sig
 }
 
 func firstLine(s string) string {
@@ -315,6 +329,9 @@ func replay(run *common.Run, cases []Case) {
 			msg = c.Sc.Check(r)
 		}
 		if msg != "" {
+			if strings.HasPrefix(msg, "MULTI\n") {
+				msg = msg[len("MULTI\n"):]
+			}
 			fmt.Printf("VIOLATION property=%s replay=%s signature=%s\n", run.Prop, run.Replay, firstLine(msg))
 			fmt.Println(msg)
 			os.Exit(1)
@@ -324,4 +341,23 @@ func replay(run *common.Run, cases []Case) {
 	}
 	fmt.Fprintln(os.Stderr, "replay: scenario not found:", rf.Scenario)
 	os.Exit(2)
+}
+
+// Multi packs several independent violations of one execution into one check
+// result; tail (observations) is attached to each.
+func Multi(msgs []string, tail string) string {
+	if len(msgs) == 0 {
+		return ""
+	}
+	seen := map[string]bool{}
+	var parts []string
+	for _, m := range msgs {
+		s := firstLine(m)
+		if seen[s] {
+			continue
+		}
+		seen[s] = true
+		parts = append(parts, m+"\n"+tail)
+	}
+	return "MULTI\n" + strings.Join(parts, "\n@@\n")
 }
